@@ -1,6 +1,7 @@
 package oracle
 
 import (
+	"encoding/json"
 	"fmt"
 	"regexp"
 	"unicode/utf8"
@@ -54,6 +55,10 @@ func match(p, s string) bool {
 // formatVerdict decides formats by construction class: values are only ever drawn from the
 // valid/invalid pools of valgen, so membership decides. ok=false means undecidable.
 func formatVerdict(f, s string) (valid bool, ok bool) {
+	if f == "json" {
+		// decidable for every string with the standard library alone
+		return json.Valid([]byte(s)), true
+	}
 	for _, v := range valgen.FormatPool(f, true) {
 		if v == s {
 			return true, true
